@@ -8,6 +8,7 @@ arbitrary input of the run-loop model (Model/ScenarioRun.lean).
 import SpiceEv.Proofs.ScenarioRun
 import SpiceEv.Proofs.Strategies
 import SpiceEv.Proofs.StrategiesBat
+import SpiceEv.Proofs.StrategiesLower
 set_option linter.unusedSectionVars false
 namespace SpiceEv
 variable {α : Type} [Field α] [LinearOrder α] [IsStrictOrderedRing α]
@@ -321,5 +322,79 @@ theorem C04_greedy_balanced_upper_batteries (rule : Rule) {B : Type} (ops : BatO
             have haf0 : 0 ≤ af g.id := hend.af_nonneg g hg
             simp only [supR, List.filter_nil, List.map_nil, List.sum_nil, add_zero] at this
             exact le_trans this (max_le (le_refl _) (by linarith))
+
+/-- **Greedy and balanced never break the feed-in side of the limit** (any number of connectors,
+stationary batteries, V2G).  For any battery obeying `BatLaw`: if before the strategy step every
+connector's load (fixed load − generation) is at least `−F` for a bound `F ≥ 0` per connector id —
+in particular `F` = the currently valid limit — then after `Greedy.step` / `Balanced.step` it still
+is: charging only adds load, V2G support discharges at most what the connector draws, a stationary
+battery discharges at most down to zero grid draw.  Together with `C04_greedy_balanced_upper(_batteries)`
+this is "no decision of these strategies breaks ± the limit". -/
+theorem C04_greedy_balanced_lower (rule : Rule) {B : Type} (ops : BatOps α B) (law : BatLaw ops)
+    (env : StratEnv α) (heps : 0 ≤ env.eps) (F : String → α) (hF : ∀ k, 0 ≤ F k)
+    (w w' : SWorld α B) (cmds : List (String × α))
+    (h0 : ∀ g ∈ w.gcs, -F g.id ≤ g.currentLoad)
+    (h : ruleStep rule ops env w = .ok (w', cmds)) :
+    ∀ g ∈ w'.gcs, -F g.id ≤ g.currentLoad :=
+  ruleStep_above rule ops law env heps F hF w w' cmds h0 h
+
+/-- in particular a connector that draws power before the step is never turned into a feeder -/
+theorem C04_greedy_balanced_no_feedin (rule : Rule) {B : Type} (ops : BatOps α B) (law : BatLaw ops)
+    (env : StratEnv α) (heps : 0 ≤ env.eps) (w w' : SWorld α B) (cmds : List (String × α))
+    (h0 : ∀ g ∈ w.gcs, 0 ≤ g.currentLoad)
+    (h : ruleStep rule ops env w = .ok (w', cmds)) :
+    ∀ g ∈ w'.gcs, 0 ≤ g.currentLoad := by
+  have := C04_greedy_balanced_lower rule ops law env heps (fun _ => 0) (fun _ => le_refl _) w w' cmds
+    (by simpa using h0) h
+  simpa using this
+
+/-- a battery for the non-vacuity check: takes half of what it is offered (contract `BatLaw`) -/
+def halfOps : BatOps ℚ ℚ where
+  soc b := b
+  capacity _ := 10
+  efficiency _ := 1
+  unloadMaxPower _ := 5
+  load b mp _ tp := .ok (b, max ((tp.getD (mp.getD 0))) 0 / 2)
+  unload b mp _ tp := .ok (b, max ((tp.getD (mp.getD 0))) 0 / 2)
+  available _ := .ok 0
+
+theorem halfOps_law : BatLaw halfOps := by
+  refine ⟨?_, ?_, ?_, ?_, ?_⟩
+  · intro b p b' avg h
+    simp only [halfOps, Option.getD_some, Option.getD_none, Except.ok.injEq, Prod.mk.injEq] at h
+    obtain ⟨_, rfl⟩ := h
+    have : (0 : ℚ) ≤ max p 0 := le_max_right _ _
+    constructor <;> linarith
+  · intro b p b' avg h
+    simp only [halfOps, Option.getD_some, Option.getD_none, Except.ok.injEq, Prod.mk.injEq] at h
+    obtain ⟨_, rfl⟩ := h
+    have : (0 : ℚ) ≤ max p 0 := le_max_right _ _
+    constructor <;> linarith
+  · intro b p ts b' avg h
+    simp only [halfOps, Option.getD_some, Option.getD_none, Except.ok.injEq, Prod.mk.injEq] at h
+    obtain ⟨_, rfl⟩ := h
+    have : (0 : ℚ) ≤ max p 0 := le_max_right _ _
+    constructor <;> linarith
+  · intro b x b' avg h
+    simp only [halfOps, Option.getD_some, Option.getD_none, Except.ok.injEq, Prod.mk.injEq] at h
+    obtain ⟨_, rfl⟩ := h
+    have : (0 : ℚ) ≤ max x 0 := le_max_right _ _
+    constructor <;> linarith
+  · intro b a h
+    simp only [halfOps, Except.ok.injEq] at h
+    rw [← h]
+
+/-- Non-vacuity of `C04_greedy_balanced_lower` / `_upper_batteries`: a connector drawing 6 kW with a
+V2G vehicle above its desired SoC (which discharges in the surplus pass) and a stationary battery
+(which discharges in the battery pass); the contract holds and the step succeeds with the load
+still non-negative (`6 − 5/2 − 7/4 = 7/4`). -/
+example :
+    let w : SWorld ℚ ℚ :=
+      ⟨[⟨"GC1", 20, some (.fixed (3/10)), [("load", 6)]⟩], [⟨"CS1", "GC1", 11, 0, 0⟩],
+       [⟨"v1", some "CS1", 1/2, some 7200000000, 0, true, 1/5, 9/10⟩], [⟨"BAT1", "GC1", 0, 1/2⟩]⟩
+    let env : StratEnv ℚ := ⟨1/100000, 1/10, 4, 0, 900000000⟩
+    BatLaw halfOps ∧ (∀ g ∈ w.gcs, 0 ≤ g.currentLoad) ∧
+      (ruleStep .greedy halfOps env w).map (fun r => r.1.gcs.map (·.currentLoad)) = .ok [7/4] := by
+  refine ⟨halfOps_law, by decide +kernel, by decide +kernel⟩
 
 end SpiceEv
